@@ -30,6 +30,7 @@ RULE = (
 )
 ASSUMPTIONS = [
     "allowed outcomes: success, or pyoda_time.utility.InvalidPyodaDataError",
+    "memory exhaustion = MemoryError, or peak resident memory growing by more than 400 MB for one damaged stream (pristine: a few MB)",
     "hang / exhaustion is decided by a deterministic Python-call budget, triggered by a 25 s watchdog",
 ]
 
@@ -156,7 +157,16 @@ def _k_fault(c) -> CaseInfo:
             raise InvalidCase
         hit = {field_of(which, e[1]) for e in edits}
     wide = any(h in ("field:0", "field:3", "header") for h in hit)
-    loaded, fetched = exercise(which, damaged, hit, c.get("extra", 40 if wide else 5))
+    import resource
+
+    rss0 = resource.getrusage(resource.RUSAGE_SELF).ru_maxrss
+    try:
+        loaded, fetched = exercise(which, damaged, hit, c.get("extra", 40 if wide else 5))
+    except MemoryError:
+        raise Mismatch("memory-exhaustion", "MemoryError while loading / fetching from damaged data") from None
+    grown_mb = (resource.getrusage(resource.RUSAGE_SELF).ru_maxrss - rss0) // 1024
+    # loading the pristine 130 kB file needs a few MB; hundreds of MB for a damaged one is exhaustion in the making
+    need(grown_mb < 400, "memory-exhaustion", f"peak resident memory grew by {grown_mb} MB while handling the damaged stream")
     inside_zone = any(not h.startswith("field:") and h not in ("header", "eof") for h in hit)
     return CaseInfo(loaded or inside_zone, "fault:loaded" if loaded else "fault:rejected-at-load")
 
@@ -195,6 +205,33 @@ def task_structural_subs(ctx: Ctx, which: str, part: int, parts: int, per_pos: i
         k = sub_seed(ctx.seed, "c20s", which, pos)
         for j in range(per_pos):
             ctx.case("fault", {"file": which, "edits": [["sub", pos, vals[(k + j) % len(vals)]]]})
+
+
+INFLATE_KINDS = ("period-count", "pool-count", "map-count", "field-length", "pool-string-length", "pool-index", "rule-month")
+
+
+def task_inflate(ctx: Ctx, which: str, part: int, parts: int) -> None:
+    """Deterministic sweep: every count-like varint is inflated to a huge (but legal, < 2^31) value, with and
+    without changing the length of the stream (damaged counts are what drives allocation and loops)."""
+    import resource
+
+    try:
+        resource.setrlimit(resource.RLIMIT_AS, (8 << 30, resource.RLIM_INFINITY))
+    except (ValueError, OSError):
+        pass
+    db = c06.ref_db(which)
+    marks = [(p, k) for p, k in db.marks if k in INFLATE_KINDS]
+    for z in db.zones.values():
+        marks += [(p, k) for p, k in z.marks if k in INFLATE_KINDS]
+    marks.sort()
+    size = len(raw(which))
+    for i, (pos, kind) in enumerate(marks):
+        if i % parts != part or pos + 4 > size or ctx.should_abort():
+            continue
+        big = [0xFF, 0xFF, 0xFF, 0x7F]
+        ctx.case("fault", {"file": which, "edits": [["sub", pos + j, big[j]] for j in range(4)]})
+        ctx.case("fault", {"file": which, "edits": [["ins", pos, b] for b in reversed(big)]})
+        ctx.case("fault", {"file": which, "edits": [["ins", pos, 0xFF], ["ins", pos, 0xFF], ["ins", pos, 0xFF]]})
 
 
 def task_hyp(ctx: Ctx, which: str, shard: int, n: int) -> None:
@@ -239,6 +276,8 @@ def tasks(tier: str, seed: int) -> list[Task]:
         parts = 8 if not thorough else 16
         for j in range(parts):
             out.append(Task("task_structural_subs", {"which": which, "part": j + (0 if thorough else 0), "parts": parts * (1 if thorough else 10), "per_pos": 3 if thorough else 1}, f"subs-{which}-{j}"))
+        for j in range(4):
+            out.append(Task("task_inflate", {"which": which, "part": j, "parts": 4 * (1 if thorough else 12)}, f"inflate-{which}-{j}"))
         for j in range(4 if not thorough else 8):
             out.append(Task("task_hyp", {"which": which, "shard": j, "n": 300 if not thorough else 6000}, f"hyp-{which}-{j}"))
     return out
